@@ -10,5 +10,5 @@ mkdir -p .cache evidence replays
 ocaml/build.sh || echo "setup: modeld not built"
 cp /repo/go.sum harness/go.sum
 (cd harness && go build -tags verif -o ../.cache/harness .)
-if [ -d harness-hz ]; then cp /repo/cmd/hz/go.sum harness-hz/go.sum; (cd harness-hz && go build -tags verif -o ../.cache/harness-hz .); fi
+if [ -d harness-hz ]; then cat /repo/go.sum /repo/cmd/hz/go.sum | sort -u > harness-hz/go.sum; (cd harness-hz && go build -tags verif -o ../.cache/harness-hz .); fi
 echo "setup ok"
